@@ -15,6 +15,14 @@ use crate::Value;
 
 // val = string / boolean / array / inline-table / date-time / float / integer
 pub(crate) fn value(input: &mut Input<'_>) -> ModalResult<Value> {
+    if input.is_empty() {
+        // Report a missing value at the end of input like a missing value before a newline
+        return fail
+            .context(StrContext::Label("string"))
+            .context(StrContext::Expected(StrContextValue::CharLiteral('"')))
+            .context(StrContext::Expected(StrContextValue::CharLiteral('\'')))
+            .parse_next(input);
+    }
     dispatch! {peek(any);
             crate::parser::strings::QUOTATION_MARK |
             crate::parser::strings::APOSTROPHE => string.map(|s| {
